@@ -276,8 +276,12 @@ def inline_call(ex, state, f, args, kwargs):
             o.state.frame.locals["__ret__"] = o.val if o.kind == "return" else VNone
             rets.append(o.state)
         elif o.kind == "raise":
-            o.state.frames.pop()
-            state.pending.append((o.state, o.val))
+            rs_ = o.state
+            if rs_ is state:
+                rs_ = state.copy()      # `state` itself is about to become the merged normal exit
+                rs_.pending = []
+            rs_.frames.pop()
+            state.pending.append((rs_, o.val))
         else:
             raise Unsupported("break/continue escaping function")
     m = merge_states(rets) if rets else None
